@@ -1,9 +1,10 @@
 use crate::engine::case::Prop;
 
 pub mod c08;
+pub mod c13;
 
 pub fn all() -> Vec<&'static dyn Prop> {
-    vec![&c08::C08]
+    vec![&c08::C08, &c13::C13]
 }
 
 pub fn get(id: &str) -> Option<&'static dyn Prop> {
